@@ -5,23 +5,6 @@ import TetlProofs.C18.Lemmas
 namespace Tetl.C18.Props
 open Tetl Tetl.C18
 
-theorem sgn_natCast (a : Nat) : Spec.sgn (a : Int) = if a = 0 then 0 else 1 := by
-  unfold Spec.sgn; split <;> split <;> omega
-theorem sgn_neg_natCast (a : Nat) : Spec.sgn (-(a : Int)) = if a = 0 then 0 else -1 := by
-  unfold Spec.sgn; split <;> split <;> omega
-
-theorem tdiv_eq_divQuot (x y : Int) : Int.tdiv x y = Spec.divQuot x y := by
-  obtain ⟨a, rfl | rfl⟩ : ∃ a : Nat, x = a ∨ x = -a := ⟨x.natAbs, Int.natAbs_eq x⟩ <;>
-  obtain ⟨b, rfl | rfl⟩ : ∃ b : Nat, y = b ∨ y = -b := ⟨y.natAbs, Int.natAbs_eq y⟩ <;>
-  simp only [Spec.divQuot, sgn_natCast, sgn_neg_natCast, Int.natAbs_natCast, Int.natAbs_neg, Int.neg_tdiv, Int.tdiv_neg,
-    Int.natCast_tdiv_eq_ediv, Int.neg_neg] <;>
-  rcases Nat.eq_zero_or_pos a with rfl | ha <;> rcases Nat.eq_zero_or_pos b with rfl | hb <;>
-  simp [Nat.pos_iff_ne_zero.mp, *] <;> (try (have := Nat.pos_iff_ne_zero.mp ha; have := Nat.pos_iff_ne_zero.mp hb; simp [*]))
-
-
-theorem divRem_eq_tmod (x y : Int) : Spec.divRem x y = Int.tmod x y := by
-  rw [Spec.divRem, ← tdiv_eq_divQuot, Int.tmod_def, Int.mul_comm]
-
 /-- `div`/`ldiv`/`lldiv`/`imaxdiv` on a `bits`-wide type: defined whenever C defines it (non-zero divisor,
     representable quotient), and then equal to the truncated quotient and its remainder -/
 theorem div_eq (bits : Nat) (x y : Int) (hy : y ≠ 0) (hq : inRangeS bits (Int.tdiv x y) = true) :
